@@ -198,6 +198,20 @@ namespace hv
         }
     };
 
+    // compile-time passive input *between* two active ones (the wiring-time passive(port) mark may be applied to it
+    // redundantly, and to either active neighbour)
+    struct SampleMid
+    {
+        static constexpr auto name = "hv_samplemid";
+        static void start(Scalar<"id", Int> id) { u_start(id.value()); }
+        static void stop(Scalar<"id", Int> id) { u_stop(id.value()); }
+        static void eval(In<"a", TS<Int>> a, In<"held", TS<Int>, InputActivity::Passive> held, In<"c", TS<Int>, InputValidity::Unchecked> c,
+                         Scalar<"id", Int> id, DateTime now, Out<TS<Int>> out)
+        {
+            compute_body(id.value(), 0, now, out, a, held, c);
+        }
+    };
+
     struct Accum
     {
         static constexpr auto name = "hv_accum";
